@@ -2241,6 +2241,131 @@ func runC17(c *Ctx) {
 			}
 		}
 	}
+	// the same shape with the token built by a package-level helper: h(s, a, b) { return &token{Text: s[a:b], Offset: a} },
+	// called with the input, a word start (a variable that only ever holds the sentinel -1 or a scan position, read where
+	// it is known not to be the sentinel) and a scan position or len(s)
+	helperForm := false
+	{
+		var isWordStart func(v ssa.Value, seen map[ssa.Value]bool) (bool, bool)
+		isWordStart = func(v ssa.Value, seen map[ssa.Value]bool) (okAll bool, sawIdx bool) {
+			if v == idx {
+				return true, true
+			}
+			if k, isK := core.ConstInt(v); isK && k == -1 {
+				return true, false
+			}
+			phi, isPhi := v.(*ssa.Phi)
+			if !isPhi {
+				return false, false
+			}
+			if seen[v] {
+				return true, false
+			}
+			seen[v] = true
+			okAll = true
+			for _, e := range phi.Edges {
+				o, si := isWordStart(e, seen)
+				if !o {
+					return false, false
+				}
+				sawIdx = sawIdx || si
+			}
+			return okAll, sawIdx
+		}
+		isEnd := func(v ssa.Value) bool {
+			if v == idx {
+				return true
+			}
+			if call, ok := v.(*ssa.Call); ok {
+				if bi, ok := call.Call.Value.(*ssa.Builtin); ok && bi.Name() == "len" && isInputValue(call.Call.Args[0], s) {
+					return true
+				}
+			}
+			return false
+		}
+		helpers := map[*ssa.Function]bool{}
+		for _, g := range core.WithAnon(tk) {
+			for _, call := range core.CallsIn(g) {
+				if h := call.Common().StaticCallee(); h != nil && h != tk && h.Parent() == nil && core.FuncPkgPath(h) == tkPkg && len(h.Blocks) > 0 {
+					helpers[h] = true
+				}
+			}
+		}
+		for h := range helpers {
+			for _, b := range h.Blocks {
+				for _, in := range b.Instrs {
+					st, ok := in.(*ssa.Store)
+					if !ok {
+						continue
+					}
+					fa, ok := st.Addr.(*ssa.FieldAddr)
+					if !ok || core.FieldName(fa) != "Text" {
+						continue
+					}
+					sl, ok := st.Val.(*ssa.Slice)
+					if !ok {
+						continue
+					}
+					pi := func(v ssa.Value) int {
+						for i, q := range h.Params {
+							if v == ssa.Value(q) {
+								return i
+							}
+						}
+						return -1
+					}
+					xs, lo, hi := pi(sl.X), pi(sl.Low), pi(sl.High)
+					if xs < 0 || lo < 0 || hi < 0 {
+						continue
+					}
+					var off *ssa.Store
+					nOff := 0
+					for _, r := range *fa.X.Referrers() {
+						if fa2, ok := r.(*ssa.FieldAddr); ok && core.FieldName(fa2) == "Offset" {
+							for _, u := range *fa2.Referrers() {
+								if st2, ok := u.(*ssa.Store); ok && st2.Addr == fa2 {
+									off = st2
+									nOff++
+								}
+							}
+						}
+					}
+					n++
+					helperForm = true
+					c.R.Check(nOff == 1 && off.Val == sl.Low, "R17.1", "Tokenize: a token whose Text is a substring s[a:b] of the input has Offset a", p.Pos(st.Pos()), "Text: s[a:b], Offset: a (the same parameter of "+h.Name()+")", "the token's Text is cut from the input at a position other than its Offset")
+					sites, okSites, whySites := 0, true, ""
+					for _, g := range core.WithAnon(tk) {
+						for _, call := range core.CallsIn(g) {
+							if call.Common().StaticCallee() != h {
+								continue
+							}
+							sites++
+							args := call.Common().Args
+							if !isInputValue(args[xs], s) {
+								okSites, whySites = false, "the string that is cut is not the input"
+							}
+							if !isEnd(args[hi]) {
+								okSites, whySites = false, "the end of the substring is not a position the scan has reached: the token can end inside a rune or leave characters uncovered"
+							}
+							okW, sawIdx := isWordStart(args[lo], map[ssa.Value]bool{})
+							notSentinel := args[lo] == idx
+							for _, f := range core.FactsAtInstr(call.(ssa.Instruction)) {
+								if cmp, ok := f.AsCmp(); ok && cmp.X == args[lo] {
+									if k, isK := core.ConstInt(cmp.Y); isK && ((cmp.Op == token.GEQ && k >= 0) || (cmp.Op == token.GTR && k >= -1) || (cmp.Op == token.NEQ && k == -1)) {
+										notSentinel = true
+									}
+								}
+							}
+							if !okW || !sawIdx || !notSentinel {
+								okSites, whySites = false, "the start of the substring is not a scan position recorded earlier (a variable holding -1 or the scan position, read behind a test against the sentinel)"
+							}
+						}
+					}
+					c.R.Check(okSites && sites > 0, "R17.1", "Tokenize: a substring token built by "+h.Name()+" runs from a recorded scan position to a scan position or the end of the input", p.Pos(st.Pos()), fmt.Sprintf("%d call sites: (input, word start, scan position | len(s))", sites), whySites)
+				}
+			}
+		}
+	}
 	builderWrites := map[ssa.Instruction]bool{}
 	for _, f := range core.WithAnon(tk) {
 		for _, b := range f.Blocks {
@@ -2333,7 +2458,7 @@ func runC17(c *Ctx) {
 	// R17.5 every non-space character is covered: a path through one iteration of the scan loop on which the decoded rune
 	// contributes to no token's Text has taken the true branch of unicode.IsSpace(r) - and of nothing weaker. (Decided for
 	// the per-rune shape, where contributing means passing a store to a Text field.)
-	if len(sliceForm) == 0 {
+	if len(sliceForm) == 0 && !helperForm {
 		var header *ssa.BasicBlock
 		for d := dec.Block(); d != nil; d = d.Idom() {
 			for _, pr := range d.Preds {
